@@ -34,6 +34,7 @@ type Universe struct {
 	sizes   types.Sizes
 	modules map[string]string // module path -> dir
 	ifaceContracts map[string]*FuncContract
+	roots        map[string]bool // packages named by the load patterns
 	finalGlobals map[string]bool
 	finalIface   map[*ssa.Global]types.Type
 }
@@ -102,6 +103,10 @@ func loadUniverse(repo, modDir string, patterns []string) (*Universe, error) {
 			errs = errs[:5]
 		}
 		return nil, fmt.Errorf("package load errors: %s", strings.Join(errs, "; "))
+	}
+	u.roots = map[string]bool{}
+	for _, p := range pkgs {
+		u.roots[p.PkgPath] = true
 	}
 	prog, _ := ssautil.AllPackages(pkgs, ssa.InstantiateGenerics|ssa.GlobalDebug)
 	prog.Build()
